@@ -4,12 +4,15 @@ import core
 import tie
 import lib_scope_names as N
 
-RULE = ("name events {declare, assign, op-assign, read, destructuring declare (list / object pattern), fn declare, function with "
-        "parameter + call, for target, function + call, block / if-block, close} over the names a, b and `_`: every sequence of "
-        "<= 4 (quick) / <= 5 (thorough) events whose proper prefixes are error-free (exhaustive: what follows an error never "
-        "runs), random sequences of 6..10 events; a reference scope machine predicts stdout, exit status and, for the failing "
+RULE = ("name events {declare, assign, op-assign, read, destructuring declare (list / object pattern), collect-only and "
+        "collect-last patterns against empty and exactly-fitting sources in declare and in assign mode, fn declare, function "
+        "with parameter + call, for target, function + call, and one scope-opening event per kind of body: bare block, "
+        "`if true`, taken `else` arm, taken `else if` arm, `while` body (one iteration); close} over the names a, b and `_`: "
+        "every sequence of <= 3 (quick) / <= 4 (thorough) events, and every sequence of 4 / 5 events over the reduced alphabet "
+        "(name a, declare/read of `_`, all structural events), whose proper prefixes are error-free (exhaustive: what follows "
+        "an error never runs), random sequences of 6..10 events; a reference scope machine predicts stdout, exit status and, for the failing "
         "event, `not defined` at the name or `already defined` at the name citing the position of the earlier declaration; "
-        "every non-bindable expression kind (16) in every binding position (15): exit 103, a `cannot bind to` / type-property "
+        "every non-bindable expression kind (16) in every binding position (21, including collect targets against empty sources): exit 103, a `cannot bind to` / type-property "
         "diagnostic at the target, output only up to that point; 22 controls with bindable targets; non-trivial = distinct "
         "(multiset of event kinds, outcome kind, failing event kind, depth) / (expression kind, position)")
 ASSUMPTIONS = ["`x += 1` on a name holding a function is predicted as a type error (only status and 'not a name diagnostic' are checked)",
@@ -53,9 +56,10 @@ def judge_nonbindable(pos, before, r):
     m = DIAG.match(first)
     if not m:
         return f"stderr does not start with a located diagnostic: {first!r}"
-    if r["stdout"] == "" and not m.group(3).startswith("cannot bind to"):
+    if r["stdout"] == "" and re.match(r"unexpected |'.*' is too high", m.group(3)):
         return ""          # rejected by the parser before anything ran: also a reported error
-    if not (m.group(3).startswith("cannot bind to ") or m.group(3) == "type properties cannot be assigned to"):
+    if not (m.group(3).startswith("cannot bind to ") or m.group(3) == "type properties cannot be assigned to"
+            or m.group(3) == "object property name isn't a variable"):
         return f"rejected, but not as a binding error: {first!r}"
     if r["stdout"] != before:
         return f"the binding error was raised at the wrong time: stdout {r['stdout']!r}, expected {before!r}"
@@ -115,23 +119,33 @@ def events_stream(ctx, label, items, model_ok, reported):
 
 def run(ctx, model_ok):
     thorough = ctx.tier == "thorough"
-    maxlen = 5 if thorough else 4
+    maxlen = 4 if thorough else 3
     ctx.cov["exhaustive"] = True
-    ctx.cov["exhaustive_bound"] = f"event sequences of length <= {maxlen} with error-free proper prefixes"
+    ctx.cov["exhaustive_bound"] = (f"event sequences of length <= {maxlen} (all events) and of length {maxlen + 1} over the reduced "
+                                   "alphabet, with error-free proper prefixes")
     reported = set()
     chunk = []
-    sampled = False
-    for seq, m in N.sequences(maxlen):
+
+    def stream():
+        yield from N.sequences(maxlen)
+        for seq, m in N.sequences(maxlen + 1, N.REDUCED):
+            if len(seq) == maxlen + 1:
+                yield seq, m
+
+    last = None
+    for seq, m in stream():
         chunk.append((seq, m))
         if len(chunk) >= 100000:
-            events_stream(ctx, "name_events", chunk, model_ok, reported)
+            last = (chunk,) + events_stream(ctx, "name_events", chunk, model_ok, reported)
             chunk = []
     if chunk:
-        srcs, impl = events_stream(ctx, "name_events", chunk, model_ok, reported)
-        k = [i for i, (s, m) in enumerate(chunk) if m.error and m.error[0] == "already" and len(s) >= 3]
+        last = (chunk,) + events_stream(ctx, "name_events", chunk, model_ok, reported)
+    if last:
+        ch, srcs, impl = last
+        k = [i for i, (s, m) in enumerate(ch) if m.error and m.error[0] == "already" and "!" in s]
         if k:
-            ctx.sample({"stream": "name_events", "events": " ".join(chunk[k[0]][0]), "src": srcs[k[0]], "impl": impl[k[0]]})
-    rs = N.random_sequences(ctx.rng, 100000 if thorough else 10000)
+            ctx.sample({"stream": "name_events", "events": " ".join(ch[k[0]][0]), "src": srcs[k[0]], "impl": impl[k[0]]})
+    rs = N.random_sequences(ctx.rng, 100000 if thorough else 20000)
     srcs, impl = events_stream(ctx, "name_events_random", rs, model_ok, reported)
     ctx.sample({"stream": "name_events_random", "events": " ".join(rs[0][0]), "src": srcs[0], "impl": impl[0]})
 
@@ -153,14 +167,16 @@ def run(ctx, model_ok):
     for (k, t, p, s, pos, before), r in zip(cases, res):
         first = r["stderr"].split("\n")[0]
         ctx.nontrivial(("nonbindable", k, p))
-        ctx.dist("nonbindable:" + ("rejected-by-parser" if r["stdout"] == "" and "cannot bind" not in first
-                                   else "type-property" if "type properties" in first else "cannot-bind"))
+        ctx.dist("nonbindable:" + ("type-property" if "type properties" in first else "cannot-bind" if "cannot bind" in first
+                                   else "object-collect-not-a-variable" if "isn't a variable" in first
+                                   else "rejected-by-parser" if r["stdout"] == "" else "other"))
         why = judge_nonbindable(pos, before, r)
         if why:
             bad.add(s)
             ctx.violation(f"target `{t}` ({k}) as {p}: {why}", s, {"cli": r})
     tie.report_disagreements(ctx, [d for d in dis if d[0] not in bad], "nonbindable")
     ctx.sample({"stream": "nonbindable", "kind": cases[37][0], "position": cases[37][2], "src": cases[37][3], "cli": res[37]})
+    ctx.sample({"stream": "nonbindable", "kind": cases[-5][0], "position": cases[-5][2], "src": cases[-5][3], "cli": res[-5]})
 
     ctl = [N.PRE + s for _, s, _ in N.CONTROLS]
     res = core.cli_batch(ctl)
